@@ -59,4 +59,82 @@ mod verif_c04d {
         let sa = SeqAccess { deserializer: &mut d, len: claimed };
         assert!(serde::de::SeqAccess::size_hint(&sa) == if claimed <= 6 { Some(claimed) } else { None });
     }
+
+    /// C01/C03: contract of SeqAccess::next_element_seed for EVERY remaining count (full usize domain, loop-free):
+    /// yields exactly one element and decrements the count by one while it is > 0, then None without consuming anything.
+    #[kani::proof]
+    #[kani::unwind(4)]
+    fn seq_access_contract() {
+        let b: [u8; 3] = kani::any();
+        let mut d = Deserializer::from_bytes(&b[..]);
+        let len: usize = kani::any();
+        let mut sa = SeqAccess { deserializer: &mut d, len };
+        let r = serde::de::SeqAccess::next_element_seed(&mut sa, PhantomData::<u8>);
+        kani::cover!(len == 0);
+        kani::cover!(len >= 128);
+        if len == 0 {
+            assert!(matches!(r, Ok(None)), "SPEC: an exhausted sequence must yield None");
+            assert!(sa.len == 0);
+            assert!(d.finalize().unwrap().len() == 3, "SPEC: ... without consuming input");
+        } else {
+            assert!(r == Ok(Some(b[0])), "SPEC: a sequence with elements left must yield the next element");
+            assert!(sa.len == len - 1, "SPEC: ... and count it exactly once");
+            assert!(d.finalize().unwrap().len() == 2);
+        }
+    }
+    /// same for MapAccess: a key while entries are left (count decremented once), the value never touches the count
+    #[kani::proof]
+    #[kani::unwind(4)]
+    fn map_access_contract() {
+        let b: [u8; 3] = kani::any();
+        let mut d = Deserializer::from_bytes(&b[..]);
+        let len: usize = kani::any();
+        let mut ma = MapAccess { deserializer: &mut d, len };
+        let k = serde::de::MapAccess::next_key_seed(&mut ma, PhantomData::<u8>);
+        if len == 0 {
+            assert!(matches!(k, Ok(None)) && ma.len == 0, "SPEC: an exhausted map must yield no key");
+        } else {
+            assert!(k == Ok(Some(b[0])) && ma.len == len - 1, "SPEC: next_key must yield the next key and count the entry once");
+            let v = serde::de::MapAccess::next_value_seed(&mut ma, PhantomData::<u8>);
+            assert!(v == Ok(b[1]) && ma.len == len - 1, "SPEC: next_value must yield the value that follows the key");
+        }
+    }
+    /// deserialize_seq / deserialize_map hand the decoded varint(usize) count to the visitor unchanged; tuples / structs the static arity
+    struct LenProbe;
+    impl<'de> Visitor<'de> for LenProbe {
+        type Value = usize;
+        fn expecting(&self, f: &mut core::fmt::Formatter) -> core::fmt::Result {
+            f.write_str("len")
+        }
+        fn visit_seq<A: serde::de::SeqAccess<'de>>(self, a: A) -> core::result::Result<usize, A::Error> {
+            Ok(a.size_hint().unwrap_or(usize::MAX))
+        }
+        fn visit_map<A: serde::de::MapAccess<'de>>(self, a: A) -> core::result::Result<usize, A::Error> {
+            Ok(a.size_hint().unwrap_or(usize::MAX))
+        }
+    }
+    #[kani::proof]
+    #[kani::unwind(12)]
+    fn seq_len_passed_through() {
+        let n: usize = kani::any();
+        let mut buf = [0u8; 16];
+        let mut tmp = [0u8; 10];
+        let enc = crate::varint::varint_usize(n, &mut tmp);
+        let l = enc.len();
+        let mut i = 0;
+        while i < 10 {
+            if i < l { buf[i] = enc[i]; }
+            i += 1;
+        }
+        // map: the count reaches the visitor unchanged (MapAccess::size_hint is Some(len))
+        let mut d = Deserializer::from_bytes(&buf[..]);
+        let got = de::Deserializer::deserialize_map(&mut d, LenProbe).unwrap();
+        assert!(got == n, "SPEC: deserialize_map must hand the encoded entry count to the visitor");
+        // tuple / struct: the static arity
+        let mut d2 = Deserializer::from_bytes(&buf[..2]);
+        let k: usize = kani::any();
+        kani::assume(k <= 2);
+        let got2 = de::Deserializer::deserialize_tuple(&mut d2, k, LenProbe).unwrap();
+        assert!(got2 == k, "SPEC: deserialize_tuple must use the static arity");
+    }
 }
